@@ -246,6 +246,14 @@ def case_roundtrip(mon, frame, direction, lon, lat, par):
                                            raised=repr(ex)),
                 key_conv(g, None, (lat, b1), ex))
         return
+    # the way back lands on the input: for an input on the 0/360 seam of
+    # its frame the returned longitude is where a lost reduction shows
+    if l2 > 359.999999 or l2 < 1e-6:
+        mon.cls("result-within-1e-6-of-seam", ident, [g, l1, b1, par, l2])
+    lo_ok = (0.0 <= l2 < 360.0) if g in POS_RANGE else (-360.0 < l2 < 360.0)
+    mon.check("ranges", lo_ok and -90.0 <= b2 <= 90.0,
+              dict(case, intermediate=[l1, b1], result_of=g,
+                   result=[l2, b2]))
     err = sp.sep_ll(lon, lat, l2, b2)
     mon.stat("roundtrip_err_deg(>0.01deg from poles)",
              err if near_pole(lat, b1) > 0.01 else 0.0, case)
